@@ -1014,10 +1014,16 @@ func runConn(c *Case) {
 		}
 		return true
 	}
+	// one Packet per receiving end, reused for every read of this connection, as the read loops of bot and server
+	// do: what a read finds in it is what the previous read of that end left (a longer, shorter or empty payload)
+	held := map[*mcnet.Conn]*pk.Packet{}
 	read := func(to *mcnet.Conn, k, size int) bool {
-		var p pk.Packet
+		if held[to] == nil {
+			held[to] = &pk.Packet{}
+		}
+		p := held[to]
 		var rerr error
-		kind, frame, panicked := engine.Guard(func() { rerr = to.ReadPacket(&p) })
+		kind, frame, panicked := engine.Guard(func() { rerr = to.ReadPacket(p) })
 		atomic.AddInt64(&connPackets, 1)
 		if panicked {
 			fail("conn/ReadPacket/panic/"+frame+"/"+kind+"/"+shape, k, fmt.Sprintf("packet %d (%d bytes): %s", k, size, kind))
